@@ -140,6 +140,28 @@ MUTATIONS = [
     ("tlexport/quic/quic_session.py", '        dec = QuicDecryptor(dec_keys, AESGCM, early=False)', '        dec = QuicDecryptor(dec_keys, AESGCM, early=True)', 'set_initial_decryptor: Initial decryptor built as an early-data decryptor'),
     ("tlexport/quic/quic_session.py", '        if keys is None:\n            self.can_decrypt = False\n            return\n\n        dec_keys', '        if keys is None:\n            return\n\n        dec_keys', 'set_initial_decryptor: can_decrypt kept when no keys'),
     ("tlexport/main.py", '    for buf, ts in all_decrypted_sessions:\n        writer.writepkt(bytes(buf), ts)', '    for buf, ts in reversed(all_decrypted_sessions):\n        writer.writepkt(bytes(buf), ts)', 'main.write_all: frames written in reverse order'),
+    # group QuicSess3: quic_session.py set_tls_decryptors
+    ("tlexport/quic/quic_session.py", '                self.hash_fun = SHA384\n                self.cipher = AESGCM\n                self.key_length = 32', '                self.hash_fun = SHA384\n                self.cipher = AESGCM\n                self.key_length = 16', 'set_tls_decryptors: 16-byte keys for TLS_AES_256_GCM_SHA384'),
+    ("tlexport/quic/quic_session.py", '                self.cipher = ChaCha20Poly1305', '                self.cipher = AESGCM', 'set_tls_decryptors: AES-GCM for the ChaCha20 suite'),
+    ("tlexport/quic/quic_session.py", '            if bytes.fromhex(key.client_random) == client_random:', '            if bytes.fromhex(key.client_random) != client_random:', 'set_tls_decryptors: the key-log entries of the OTHER connections'),
+    ("tlexport/quic/quic_session.py", '                [keys["server_handshake_key"], keys["server_handshake_iv"], keys["client_handshake_key"],\n                 keys["client_handshake_iv"]]', '                [keys["client_handshake_key"], keys["client_handshake_iv"], keys["server_handshake_key"],\n                 keys["server_handshake_iv"]]', 'set_tls_decryptors: handshake keys of the two directions swapped'),
+    ("tlexport/quic/quic_session.py", '                 keys["client_application_iv"], keys["server_application_sec"], keys["client_application_sec"]]', '                 keys["client_application_iv"], keys["client_application_sec"], keys["server_application_sec"]]', 'set_tls_decryptors: application secrets swapped'),
+    ("tlexport/quic/quic_session.py", '        except:\n            self.can_decrypt = False\n            logging.error("Missing Key Material")\n            return\n\n        try:\n            self.decryptors["Application"]', '        except:\n            logging.error("Missing Key Material")\n            return\n\n        try:\n            self.decryptors["Application"]', 'set_tls_decryptors: can_decrypt kept without handshake keys'),
+    ("tlexport/quic/quic_session.py", '            self.early_traffic_keys = True\n', '            pass\n', 'set_tls_decryptors: early_traffic_keys never set'),
+    ("tlexport/quic/quic_session.py", '        self.keys.update(keys)\n        try:', '        try:', 'set_tls_decryptors: derived keys not kept for header protection'),
+    ("tlexport/quic/quic_session.py", '                self.can_decrypt = False\n                return\n', '                self.can_decrypt = False\n', 'set_tls_decryptors: unknown suite goes on to derive keys'),
+    ("tlexport/quic/quic_session.py", '                [keys["client_early_key"],\n                 keys["client_early_iv"]], self.cipher, early=True)', '                [keys["client_early_key"],\n                 keys["client_early_iv"]], self.cipher, early=False)', 'set_tls_decryptors: early decryptor built with early=False'),
+    # group Decrypt2: decryptor.py constructor
+    ("tlexport/decryptor.py", '            if keys["client_handshake_traffic_secret"] is None or keys[\n                    "client_handshake_iv"] is None:', '            if keys["client_handshake_traffic_secret"] is None and keys[\n                    "client_handshake_iv"] is None:', 'parse_keys: client fallback only when secret AND iv are missing'),
+    ("tlexport/decryptor.py", '                self.server_handshake_key = keys["server_application_traffic_secret_0"]', '                self.server_handshake_key = keys["client_application_traffic_secret_0"]', "parse_keys: server fallback takes the client's application secret"),
+    ("tlexport/decryptor.py", '            self.server_key = self.server_handshake_key\n', '            self.server_key = self.server_application_key\n', 'parse_keys: server starts with the application key'),
+    ("tlexport/decryptor.py", '            self.client_key = keys["client_write_key"]', '            self.client_key = keys["server_write_key"]', 'parse_keys: client key is the server write key'),
+    ("tlexport/decryptor.py", '        if self.tls_version in [TlsVersion.TLS10, TlsVersion.SSL30]:', '        if self.tls_version in [TlsVersion.TLS10, TlsVersion.TLS11, TlsVersion.SSL30]:', 'Decryptor.__init__: last-block IV chaining for TLS 1.1'),
+    ("tlexport/decryptor.py", '            self.tag_length = 16\n', '            self.tag_length = 8\n', 'Decryptor.__init__: default tag length 8'),
+    ("tlexport/decryptor.py", '        if bytes.fromhex("0016") in extensions.keys():', '        if bytes.fromhex("0017") in extensions.keys():', 'Decryptor.__init__: encrypt-then-mac read from extension 0x0017'),
+    ("tlexport/decryptor.py", '        if self.cipher_type == EncryptionType.Stream_Cipher and not self.bulk_alg == ChaCha20Poly1305:', '        if self.cipher_type == EncryptionType.Stream_Cipher:', 'Decryptor.__init__: stream context for ChaCha20-Poly1305'),
+    ("tlexport/decryptor.py", '        self.client_seq = 0\n        self.server_seq = 0\n\n        if self.tls_version in', '        self.client_seq = 1\n        self.server_seq = 0\n\n        if self.tls_version in', 'Decryptor.__init__: client sequence starts at 1'),
+    ("tlexport/decryptor.py", '            self.last_block_server = self.server_iv\n            self.last_block_client = self.client_iv', '            self.last_block_server = self.client_iv\n            self.last_block_client = self.server_iv', 'Decryptor.__init__: last blocks crossed'),
     # group QuicTls: quic_tls_parser.py
     ("tlexport/quic/quic_tls_parser.py", "            if p_type == 0x2ab2:", "            if p_type == 0x2ab3:", "get_quic_transport_parameters: grease_quic_bit under the wrong id"),
     ("tlexport/quic/quic_tls_parser.py", "            extension_body = extension_body[index + parameter_length:]", "            extension_body = extension_body[index + parameter_length + 1:]", "get_quic_transport_parameters: a byte skipped after each parameter"),
@@ -237,6 +259,8 @@ MUTATIONS = [
 
 # behaviour-preserving rewrites: (file, [(old, new)…], what)
 REWRITES = [
+    ("tlexport/decryptor.py", [('        self.get_cipher_type()\n        self.parse_keys(keys)\n', '        self.parse_keys(keys)\n        self.get_cipher_type()\n')], 'Decryptor.__init__: parse_keys before get_cipher_type'),
+    ("tlexport/quic/quic_session.py", [('            case b"\\x13\\x01":\n                self.hash_fun = SHA256\n                self.cipher = AESGCM\n                self.key_length = 16\n\n            # TLS_AES_256_GCM_SHA384\n            case b"\\x13\\x02":\n                self.hash_fun = SHA384\n                self.cipher = AESGCM\n                self.key_length = 32\n', '            case b"\\x13\\x02":\n                self.hash_fun = SHA384\n                self.cipher = AESGCM\n                self.key_length = 32\n\n            case b"\\x13\\x01":\n                self.hash_fun = SHA256\n                self.cipher = AESGCM\n                self.key_length = 16\n')], 'set_tls_decryptors: the first two cases in the other order'),
     ("tlexport/keylog_reader.py", [('    for line in lines:\n        key = get_key_from_line(line)\n        if key is not None:\n            keys.append(key)', '    for line in lines:\n        key = get_key_from_line(line)\n        if key is None:\n            continue\n        keys.append(key)')], 'get_keys_from_string: `continue` on a line that is no key'),
     ("tlexport/main.py", [('    if packet.dport in server_ports or packet.sport in server_ports:\n        sessions.append(', '    if packet.sport in server_ports or packet.dport in server_ports:\n        sessions.append(')], 'main.handle_packet: port tests swapped'),
     ("tlexport/quic/quic_session.py", [('                if isserver:\n                    self.server_cids.add(frame.connection_id)\n                else:\n                    self.client_cids.add(frame.connection_id)', '                if not isserver:\n                    self.client_cids.add(frame.connection_id)\n                else:\n                    self.server_cids.add(frame.connection_id)')], 'handle_frame: NEW_CONNECTION_ID branches swapped under `not`'),
@@ -284,6 +308,8 @@ REWRITES = [
 def group_of(what):
     """the group(s) whose theorems a mutation/rewrite labelled `what` concerns"""
     fn = what.split(":")[0]
+    if fn == "get_cipher_type":
+        return ["Decrypt", "Decrypt2"]          # translated in both (over two different state records)
     table = {"get_header_type": ["QuicDissect", "QuicDissect2"], "get_packet_type": ["QuicDissect", "QuicDissect2"],
              "decode_variable_length_int": ["Varint", "Frames", "QuicDissect2"],
              "get_variable_length_int_length": ["Varint", "Frames", "QuicDissect2"],
@@ -310,6 +336,11 @@ def group_of(what):
     if fn in ("Dec.byte_xor", "get_cipher_type", "update_keys", "decrypt_tls13_aead", "decrypt_tls13_stream_cipher", "decrypt_tls12_aead",
               "decrypt_tls12_chacha20", "Decryptor.decrypt"):
         return ["Decrypt"]
+    if fn == "set_tls_decryptors":
+        return ["QuicSess3"]
+    if fn in ("parse_keys", "Decryptor.__init__"):
+        return ["Decrypt2"]
+
     if fn in ("Key", "get_key_from_line", "get_keys_from_string"):
         return ["Keylog"]
     if fn.startswith("main."):
